@@ -1,7 +1,7 @@
 (* Props_C07.v — property C07 (method op-codes).  Statements only; each is closed
    by [exact] of a lemma from proofs/ and followed by Print Assumptions. *)
 Require Import Base Syntax Front.
-Require Import spec.Spec_Numbering proofs.NumberingProofs proofs.C07Proofs.
+Require Import spec.Spec_Numbering proofs.NumberingProofs proofs.C07Proofs proofs.C09Proofs.
 Open Scope N_scope.
 
 (* Whatever the front end accepts (either entry point, either build mode), the
@@ -37,6 +37,15 @@ Proof. exact ancestor_numbering_shared. Qed.
 Print Assumptions C07_ancestor_shared.
 
 (* non-vacuity: a two-level hierarchy is accepted and numbered 0,1,2 *)
+
+(* one number per name: in the flattened interface of an accepted main-file interface no method name
+   occurs twice (a name declared again further down the chain, at any distance, is rejected by the
+   interface verifier), so "the" number of a name is well defined in every derived interface *)
+Theorem C07_names_unique : forall md files mir,
+  front Cli md files = Ok mir -> spec_names_unique (optable_of_mir mir) = true.
+Proof. intros md files mir H. exact (proj1 (front_cli_tables_names_unique md files mir H)). Qed.
+Print Assumptions C07_names_unique.
+
 Open Scope string_scope.
 Example C07_nonvacuous :
   let files := [mkAst "m.idl"
